@@ -18,7 +18,7 @@ func isContentMutator(name string) bool {
 }
 
 func checkC13(c *Ctx) {
-	c.explainf("C13 decides: every field of the lexer and of the parser that some lexing/parsing routine writes and some routine reads is re-initialised by the reset routine(s), which agree with each other; lexer residue is written only by the lexer's own methods, and queuing more input touches only the stream queue; each recursive-descent routine that can meet the end of the available input stores the more-input request, yields, and loops back to peek again; each lexer state that means `inside an unfinished literal or comment` is either announced to the parser by a begin token or consulted on the end-of-text path; the end-of-text path at depth 0 flushes the lexer's pending atom; taking a token removes exactly one token and peeking removes none. The yielding look-ahead is taken by the expression parser only where something is open (C13-TOPEND), nested expressions are read only by routines that wait for a token (C13-OPERAND), and every direct look-ahead inside an open construct tests for the end of input (C13-PEEKEND). It does not decide equality of pieced and whole parses on actual texts.")
+	c.explainf("C13 decides: every field of the lexer and of the parser that some lexing/parsing routine writes and some routine reads is re-initialised by the reset routine(s), which agree with each other; lexer residue is written only by the lexer's own methods, and queuing more input touches only the stream queue; each recursive-descent routine that can meet the end of the available input stores the more-input request, yields, and loops back to peek again; each lexer state that means `inside an unfinished literal or comment` is either announced to the parser by a begin token or consulted on the end-of-text path; the end-of-text path at depth 0 flushes the lexer's pending atom; taking a token removes exactly one token and peeking removes none. The yielding look-ahead is taken by the expression parser only where something is open (C13-TOPEND), nested expressions are read only by routines that wait for a token (C13-OPERAND), and every direct look-ahead inside an open construct tests for the end of input (C13-PEEKEND). flushAtEnd, entered in any state in which LexNextRune holds a token back (the set is derived), lexes a terminator or asks for more input (C13-FLUSHALL), and a routine that discards comments does not flush a pending line comment (C13-FLUSHCMT). It does not decide equality of pieced and whole parses on actual texts.")
 	lexerT := c.named("Lexer")
 	parserT := c.named("Parser")
 	if lexerT == nil || parserT == nil {
